@@ -1,6 +1,9 @@
 // C08x replayer, part 2b: Solver::AmaVanka (kernel/solver/amavanka.hpp, amavanka_base.hpp) on
-// SaddlePointMatrix<BCSR<2,2>, BCSR<2,1>, BCSR<1,2>> with automatically deduced macros, omega, num_steps, skip_singular and a
-// TupleFilter<UnitFilterBlocked<2>, UnitFilter>.  Cases come from spec/PrecondVanka.tla (kinds "ama", "amas"):
+// SaddlePointMatrix<BCSR<2,2>, BCSR<2,1>, BCSR<1,2>> (layout "bcsr": automatically deduced macros - kinds "ama", "amas" - or
+// user-pushed macros - kinds "amap", "amaps") and on the whole saddle-point system stored as ONE SparseMatrixCSR (layout "csr":
+// pushed macros = sets of flat dofs; the pressure-pressure block is structurally empty), with omega, num_steps, skip_singular
+// ("amas", "amaps") and a TupleFilter<unit filter on velocity nodes, FilterChain<UnitFilter, MeanFilter> on the pressure> resp.
+// the chain on the flat vector.  Cases come from spec/PrecondVanka.tla:
 //   * after every init_numeric the assembled Vanka matrix (a TupleMatrix of four BCSR blocks, read through a deriving probe)
 //     is compared ENTRY-WISE with the matrix  diag(omega/count) sum_k P_k^T L_k^-1 P_k  of the specification (==),
 //     together with the macro structure and - with skip_singular - the mask of regular macros;
@@ -12,14 +15,20 @@
 
 using namespace FEAT;
 using vx::DVec; using vx::DMat; using vx::DT; using vx::IT;
-typedef vx::LayBcsr Lay;
-typedef Lay::Matrix Matrix; typedef Lay::Vector Vector; typedef Lay::Filter Filter;
 
-class AmaProbe : public Solver::AmaVanka<Matrix, Filter>
+template<typename Lay>
+class AmaProbe : public Solver::AmaVanka<typename Lay::Matrix, typename Lay::Filter>
 {
 public:
-  typedef Solver::AmaVanka<Matrix, Filter> Base;
+  typedef Solver::AmaVanka<typename Lay::Matrix, typename Lay::Filter> Base;
   using Base::Base;
+  static constexpr Index dim = Index(Lay::dim);
+  static void add_block(DMat& out, const LAFEM::SparseMatrixCSR<DT, IT>& a, Index ro, Index co)
+  {
+    if(a.used_elements() == Index(0)) return;
+    const DT* v = a.val(); const IT* rp = a.row_ptr(); const IT* ci = a.col_ind();
+    for(Index i = 0; i < a.rows(); ++i) for(IT k = rp[i]; k < rp[i + 1]; ++k) out[ro + i][co + Index(ci[k])] += v[k];
+  }
   template<int BH, int BW>
   static void add_block(DMat& out, const LAFEM::SparseMatrixBCSR<DT, IT, BH, BW>& a, Index ro, Index co)
   {
@@ -31,16 +40,36 @@ public:
   // the assembled matrix, dense, in the flat numbering of the specification
   DMat dense(Index n, Index m) const
   {
-    DMat out(2 * n + m, DVec(2 * n + m, 0.0));
-    add_block(out, this->_vanka.template at<0, 0>(), 0, 0); add_block(out, this->_vanka.template at<0, 1>(), 0, 2 * n);
-    add_block(out, this->_vanka.template at<1, 0>(), 2 * n, 0); add_block(out, this->_vanka.template at<1, 1>(), 2 * n, 2 * n);
+    const Index NV = dim * n;
+    DMat out(NV + m, DVec(NV + m, 0.0));
+    if constexpr(Lay::flat) add_block(out, this->_vanka, 0, 0);
+    else
+    {
+      add_block(out, this->_vanka.template at<0, 0>(), 0, 0); add_block(out, this->_vanka.template at<0, 1>(), 0, NV);
+      add_block(out, this->_vanka.template at<1, 0>(), NV, 0); add_block(out, this->_vanka.template at<1, 1>(), NV, NV);
+    }
     return out;
   }
   std::vector<long long> mask() const { return std::vector<long long>(this->_macro_mask.begin(), this->_macro_mask.end()); }
   // macros as (velocity nodes | pressure dofs)
-  std::vector<std::pair<std::vector<long long>, std::vector<long long>>> macros() const
+  std::vector<std::pair<std::vector<long long>, std::vector<long long>>> macros(Index NV) const
   {
     std::vector<std::pair<std::vector<long long>, std::vector<long long>>> r;
+    if constexpr(Lay::flat)
+    {
+      if(this->_macro_dofs.size() != 1u) return r;
+      const Adjacency::Graph& g = this->_macro_dofs[0];
+      for(Index b = 0; b < g.get_num_nodes_domain(); ++b)
+      {
+        r.emplace_back();
+        for(Index j = g.get_domain_ptr()[b]; j < g.get_domain_ptr()[b + 1]; ++j)
+        {
+          const Index d = g.get_image_idx()[j];
+          if(d < NV) r.back().first.push_back((long long)d); else r.back().second.push_back((long long)(d - NV));
+        }
+      }
+      return r;
+    }
     if(this->_macro_dofs.size() != 2u) return r;
     const Adjacency::Graph& gv = this->_macro_dofs[0]; const Adjacency::Graph& gp = this->_macro_dofs[1];
     for(Index b = 0; b < gv.get_num_nodes_domain(); ++b)
@@ -55,19 +84,62 @@ public:
 
 static std::string ishow(const std::vector<long long>& v) { std::string s = "["; for(std::size_t i = 0; i < v.size(); ++i) s += (i ? "," : "") + std::to_string(v[i]); return s + "]"; }
 
-vj::Value run_case(const vj::Value& c)
+// macros of the case as (velocity nodes | pressure dofs), 0-based
+static void case_macros(const vj::Value& c, Index dim, Index NV, std::vector<std::vector<long long>>& mv, std::vector<std::vector<long long>>& mp)
 {
-  const Index n = Index(c["n"].as_int()), m = Index(c["m"].as_int()), NV = 2 * n, NN = NV + m;
+  const vj::Value& eb = c["blocks"];
+  for(std::size_t b = 0; b < eb.size(); ++b)
+  {
+    std::vector<long long> ix = eb[b]["idx"].ints(), ev, ep; const std::size_t nv = std::size_t(eb[b]["nv"].as_int());
+    for(std::size_t a = 0; a < ix.size(); ++a)
+    {
+      if(a < nv) { long long v = (ix[a] - 1) / (long long)dim; if(std::find(ev.begin(), ev.end(), v) == ev.end()) ev.push_back(v); }
+      else ep.push_back(ix[a] - (long long)NV - 1);
+    }
+    mv.push_back(ev); mp.push_back(ep);
+  }
+}
+static Adjacency::Graph macro_graph(const std::vector<std::vector<long long>>& ms, Index num_dofs)
+{
+  std::vector<Index> ptr(1, Index(0)), idx;
+  for(const auto& v : ms) { for(long long i : v) idx.push_back(Index(i)); ptr.push_back(Index(idx.size())); }
+  if(idx.empty()) idx.push_back(Index(0));      // (never dereferenced: all rows empty)
+  return Adjacency::Graph(Index(ms.size()), num_dofs, ptr.back(), ptr.data(), idx.data());
+}
+
+template<typename Lay>
+static vj::Value run_layout(const vj::Value& c)
+{
+  typedef typename Lay::Matrix Matrix; typedef typename Lay::Vector Vector; typedef typename Lay::Filter Filter;
+  const Index n = Index(c["n"].as_int()), m = Index(c["m"].as_int()), NV = Index(Lay::dim) * n, NN = NV + m;
   const std::string kind = c["kind"].as_str();
-  if(c["lay"].as_str() != "bcsr" || (kind != "ama" && kind != "amas")) return vh::bad("not an AmaVanka case");
+  const bool pushed = (kind == "amap" || kind == "amaps"), skip = (kind == "amas" || kind == "amaps");
+  if(kind != "ama" && kind != "amas" && !pushed) return vh::bad("not an AmaVanka case");
   DMat M[2] = { vx::dymat(c["M1"]), vx::dymat(c["M2"]) };
   DMat V[2] = { vx::dymat(c["ama1"]), vx::dymat(c["ama2"]) };
   Matrix mat = Lay::build(n, m, vx::imat(c["patA"]), vx::imat(c["patB"]), vx::imat(c["patD"]));
   int cur = 0;
   Lay::set_values(mat, M[0], n, m);
-  Filter fil = Lay::filter(n, m, c["FV"].ints(), c["FP"].ints());
-  AmaProbe vanka(mat, fil, vx::dy(c["om"]), Index(c["iters"].as_int()));
-  if(kind == "amas") vanka.set_skip_singular(true);
+  Filter fil = Lay::filter(n, m, c["FV"].ints(), c["FP"].ints(), vx::dyvec(c["mp"]), vx::dyvec(c["md"]));
+  AmaProbe<Lay> vanka(mat, fil, vx::dy(c["om"]), Index(c["iters"].as_int()));
+  if(skip) vanka.set_skip_singular(true);
+  std::vector<std::vector<long long>> mac_v, mac_p;
+  case_macros(c, Index(Lay::dim), NV, mac_v, mac_p);
+  if(pushed)
+  {
+    // user-defined macros: one graph per block (velocity nodes, pressure dofs), pushed before init_symbolic
+    if constexpr(Lay::flat)
+    {
+      std::vector<std::vector<long long>> flat(mac_v);
+      for(std::size_t b = 0; b < flat.size(); ++b) for(long long q : mac_p[b]) flat[b].push_back((long long)NV + q);
+      vanka.push_macro_dofs(macro_graph(flat, NN));
+    }
+    else
+    {
+      vanka.push_macro_dofs(macro_graph(mac_v, n));
+      vanka.push_macro_dofs(macro_graph(mac_p, m));
+    }
+  }
   std::vector<DVec> tests; for(std::size_t k = 0; k < c["tests"].size(); ++k) tests.push_back(vx::dyvec(c["tests"][k]));
 
   auto fail = [&](std::size_t step, const std::string& op, const std::string& clause, const std::string& why)
@@ -85,20 +157,13 @@ vj::Value run_case(const vj::Value& c)
     if(op == "IS")
     {
       vanka.init_symbolic();
-      auto got = vanka.macros();
-      const vj::Value& eb = c["blocks"];
-      bool same = (got.size() == eb.size());
+      auto got = vanka.macros(NV);
+      bool same = (got.size() == mac_v.size());
       std::string es, gs;
-      for(std::size_t b = 0; b < eb.size(); ++b)
+      for(std::size_t b = 0; b < mac_v.size(); ++b)
       {
-        std::vector<long long> ix = eb[b]["idx"].ints(), ev, ep; const std::size_t nv = std::size_t(eb[b]["nv"].as_int());
-        for(std::size_t a = 0; a < ix.size(); ++a)
-        {
-          if(a < nv) { long long v = (ix[a] - 1) / 2; if(std::find(ev.begin(), ev.end(), v) == ev.end()) ev.push_back(v); }
-          else ep.push_back(ix[a] - (long long)NV - 1);
-        }
-        es += "(" + ishow(ev) + "|" + ishow(ep) + ")";
-        if(same && (got[b].first != ev || got[b].second != ep)) same = false;
+        es += "(" + ishow(mac_v[b]) + "|" + ishow(mac_p[b]) + ")";
+        if(same && (got[b].first != mac_v[b] || got[b].second != mac_p[b])) same = false;
       }
       for(auto& g : got) gs += "(" + ishow(g.first) + "|" + ishow(g.second) + ")";
       if(!same) return fail(s, op, "macro_structure", "macros (velocity nodes|pressure dofs) " + gs + ", specified " + es);
@@ -106,7 +171,7 @@ vj::Value run_case(const vj::Value& c)
     else if(op == "IN")
     {
       vanka.init_numeric();
-      if(kind == "amas")
+      if(skip)
       {
         std::vector<long long> em = c[cur == 0 ? "mask1" : "mask2"].ints(), gm = vanka.mask();
         if(em != gm) return fail(s, op, "macro_mask", "mask of regular macros " + ishow(gm) + ", specified " + ishow(em));
@@ -155,6 +220,14 @@ vj::Value run_case(const vj::Value& c)
     else return vh::bad("unknown op " + op);
   }
   return vh::ok();
+}
+
+vj::Value run_case(const vj::Value& c)
+{
+  const std::string lay = c["lay"].as_str();
+  if(lay == "bcsr") return run_layout<vx::LayBcsr>(c);
+  if(lay == "csr") return run_layout<vx::LayFlatCsr>(c);
+  return vh::bad("AmaVanka: unknown layout " + lay);
 }
 
 int main(int argc, char** argv) { return vh::main_loop(argc, argv); }
